@@ -2145,6 +2145,7 @@ void ADFH_Children_IDs(const double pid,
 #endif
     if (IDs[0]==-1)
     {
+      H5Gclose(hpid);
       set_error(CHILDREN_IDS_NOT_FOUND, err);
       return;
     }
